@@ -133,6 +133,16 @@ CLAIMED = {
         note="datetime/timedelta replaced by a proleptic-Gregorian microsecond model validated against CPython (leap / century / 400-year "
              "rules); strftime %Y modelled as unpadded (glibc); end_date of 9999-12-d3 outside as in the property. Trusted: pysym, z3, the model.",
         technique="symbolic execution of the class + z3 LIA (div/mod) over the full range", ref="5 C11"),
+    "C07": dict(
+        text="Bounded symbolic verification of the COMPOSITION: gammafit / gammastd / gammastd_yxt / gammastd_grp executed next to a reference "
+             "model written from the statement (p0 over the whole pixel, fit on the positives inside the calibration window, Thom bracket, "
+             "beta = mean/alpha, ndtri(p0 + (1-p0) G(x/beta)), x1000, half-even rounding, nodata / negatives -> nodata, unfittable -> all "
+             "nodata); every cell class pattern (missing / negative / zero / positive) for T = 3..4/5 and every calibration window with >= 2 "
+             "steps; grouped driver per group; z3 decides cell-wise equality for all observation values and nodata values.",
+        note="Brent iteration = 'root in the bracket or 0'; digamma, gammainc, ndtri, log, sqrt uninterpreted and shared - their numerics, "
+             "float32 logs and |SPI| > 7 are outside; nodata assumed negative. A defect that only exists in float arithmetic (e.g. 1 - 0.9 < 0.1) "
+             "is invisible here. Trusted: pysym, z3, the contracts.",
+        technique="differential symbolic execution with contracts for the numerical kernels + z3 UF/LIRA", ref="5 C07"),
 }
 
 NOT_APPLICABLE = {
